@@ -7,7 +7,9 @@ package main
 
 import (
 	"encoding/json"
+	"fmt"
 	"net/netip"
+	"slices"
 
 	"github.com/AdguardTeam/golibs/netutil"
 
@@ -23,7 +25,7 @@ var prefixFams = []netutil.AddrFamily{netutil.AddrFamilyIPv4, netutil.AddrFamily
 
 var (
 	zones = []string{"", "z"}
-	ports = []int{0, 1, 65535}
+	ports = []int{0, 1, 32767, 32768, 65535}
 )
 
 // customAddrs are the addresses a caller's own AddrPort() may return ("" is
@@ -217,5 +219,64 @@ func main() {
 		// (d) sorting.
 		sorts(c, sh, "sort-7", sortAlpha7, runlib.Pick(c, 6, 7))
 		sorts(c, sh, "sort-3", sortAlpha3, runlib.Pick(c, 12, 14))
+
+		// Long slices (past the insertion-sort and ninther thresholds of
+		// slices.SortFunc): a pool of distinct addresses of every kind in
+		// several arrangements and every rotation of them.
+		for _, n := range []int{13, 20, 33, 51, 65, 100, 257} {
+			var pool []netip.Addr
+			for i := 0; i < n; i++ {
+				switch i % 5 {
+				case 0:
+					pool = append(pool, netip.AddrFrom4([4]byte{10, byte(i >> 8), byte(i), 1}))
+				case 1:
+					pool = append(pool, netip.AddrFrom16([16]byte{0x20, 0x01, 0x0d, 0xb8, 14: byte(i >> 8), 15: byte(i)}))
+				case 2:
+					pool = append(pool, netip.AddrFrom16([16]byte{10: 0xff, 11: 0xff, 12: 192, 13: 0, 14: byte(i >> 8), 15: byte(i)}))
+				case 3:
+					pool = append(pool, netip.AddrFrom16([16]byte{0xfe, 0x80, 15: byte(i)}).WithZone(fmt.Sprintf("z%d", i%3)))
+				default:
+					if i%10 == 4 {
+						pool = append(pool, netip.Addr{})
+					} else {
+						pool = append(pool, netip.AddrFrom4([4]byte{192, 168, byte(i >> 8), byte(i)}))
+					}
+				}
+			}
+
+			arrangements := [][]netip.Addr{pool}
+			rev := slices.Clone(pool)
+			slices.Reverse(rev)
+			arrangements = append(arrangements, rev)
+			var pipe []netip.Addr
+			for i := 0; i < n; i += 2 {
+				pipe = append(pipe, pool[i])
+			}
+
+			for i := n - 1 - (n % 2); i >= 1; i -= 2 {
+				pipe = append(pipe, pool[i])
+			}
+
+			arrangements = append(arrangements, pipe)
+			for ai, arr := range arrangements {
+				step := 1
+				if n > 65 {
+					step = 7
+				}
+
+				for rot := 0; rot < len(arr); rot += step {
+					if !sh.Mine() {
+						continue
+					}
+
+					in := append(slices.Clone(arr[rot:]), arr[:rot]...)
+					d := fmt.Sprintf("sort-long n=%d arrangement=%d rotation=%d", n, ai, rot)
+					for _, prefer := range []int{4, 6} {
+						checkSort(c, "sort-long", in, prefer, d)
+						c.NontrivialInjective()
+					}
+				}
+			}
+		}
 	})
 }
